@@ -224,7 +224,7 @@ func (e *c20Env) exec(tc *c20Case) (oracle, note string) {
 	return "", "same-unserved"
 }
 
-func c20PatternSets() [][]string {
+func c20PatternSets(maxLen int) [][]string {
 	out := [][]string{nil}
 	n := len(c20AllPatterns)
 	for mask := 1; mask < 1<<n; mask++ {
@@ -234,7 +234,7 @@ func c20PatternSets() [][]string {
 				s = append(s, c20AllPatterns[i])
 			}
 		}
-		if len(s) <= 3 {
+		if len(s) <= maxLen {
 			out = append(out, s)
 		}
 	}
@@ -246,9 +246,14 @@ func c20Cases(thorough bool) []c20Case {
 	inner := []string{"/t/unary", "/t/unary/x", "/vs.T/Unary", "/nope", "/t/unary/", "/t/unary/x/", "/vs.T/Nope", "/"}
 	prefixes := []string{"", "/api", "/pfx", "/twirp", "/api/v2", "/other", "/apix", "/API", "/t", "/vs.T"}
 	extras := [][]string{nil, {"/extra"}, {"/api/extra/"}, {"/extra", "/pfx/sub/"}}
-	for _, ps := range c20PatternSets() {
+	maxLen := 3
+	if thorough {
+		maxLen = 5
+		extras = append(extras, []string{"/t/"}, []string{"/api"}, []string{"/vs.T/Unary"}, []string{"/api/v2/extra/", "/extra"})
+	}
+	for _, ps := range c20PatternSets(maxLen) {
 		for _, ex := range extras {
-			if ex != nil && len(ps) > 2 {
+			if ex != nil && len(ps) > 2 && !thorough {
 				continue
 			}
 			for _, pre := range prefixes {
@@ -287,7 +292,7 @@ func c20Cases(thorough bool) []c20Case {
 
 func runC20(c *Ctx) {
 	r := c.Run
-	r.Rule("every set of <= 3 mount patterns from {/, /api, /api/, /pfx/, /twirp, /api/v2, /t, /vs.T/} (plus the default; the last two coincide with the first segment of the mux's own routes) that http.ServeMux accepts × extra handlers {none, /extra, /api/extra/, /extra + /pfx/sub/} × request prefix {none, each mount, /other, /apix, /API} × inner path {rule route, rule route with variable, implicit route, unmatched, trailing slash variants, unknown method, /, and paths in which the prefix text occurs again: prefix+route, route+prefix, prefix inside the route, doubled prefix} × protocol {GET, POST json, Twirp, gRPC, gRPC-web} × handler {ok, NotFound}; the response through NewServer's handler is compared with the bare mux on the stripped path; distinct = all case parameters")
+	r.Rule("every set of <= 3 (thorough: <= 5) mount patterns from {/, /api, /api/, /pfx/, /twirp, /api/v2, /t, /vs.T/} (plus the default; the last two coincide with the first segment of the mux's own routes) that http.ServeMux accepts × extra handlers {none, /extra, /api/extra/, /extra + /pfx/sub/} × request prefix {none, each mount, /other, /apix, /API} × inner path {rule route, rule route with variable, implicit route, unmatched, trailing slash variants, unknown method, /, and paths in which the prefix text occurs again: prefix+route, route+prefix, prefix inside the route, doubled prefix} × protocol {GET, POST json, Twirp, gRPC, gRPC-web} × handler {ok, NotFound}; the response through NewServer's handler is compared with the bare mux on the stripped path; distinct = all case parameters")
 	r.Assume("unclean paths ('//', '.', '..') and the bare prefix without a trailing slash are redirected by http.ServeMux and not demanded", "pattern sets that http.ServeMux rejects (both /api and /api/) are skipped")
 	cases := c20Cases(c.Thorough())
 	envs := make([]*c20Env, explore.Workers)
